@@ -90,6 +90,9 @@ def confirm(wt, cand):
 def run_check(base, wt, h, prop, tier, seed):
     env = dict(os.environ, VERIF_HARNESS=h, VERIF_REPO=wt, VERIF_OUT=base + "/out", VERIF_SEED=str(seed), CARGO_NET_OFFLINE="true")
     os.makedirs(base + "/out", exist_ok=True)
+    # make sure the worker is rebuilt against the patched sources (never trust mtimes alone)
+    for prof in (["--profile", "checked"], ["--release"]):
+        sh(["cargo", "clean", "--offline", "-p", "mila"] + prof, cwd=h, env=env)
     rc, out = sh([VERIF + "/check", prop, "--tier", tier], cwd=VERIF, env=env, timeout=7200)
     sigs = []
     try:
